@@ -76,7 +76,9 @@ func cmdCheck(args []string) int {
 	repo := fs.String("repo", envOr("GVC_REPO", "/repo"), "repository root")
 	verifDir := fs.String("verif", envOr("GVC_VERIF", "/verif"), "verification directory")
 	verbose := fs.Bool("v", false, "list every obligation")
+	record := fs.Bool("record", false, "record which query variant proved each obligation in contracts/proof_plan.json")
 	fs.Parse(args)
+	loadPlan(*verifDir)
 	seed, _ := strconv.Atoi(envOr("VERIF_SEED", "0"))
 	workers := runtime.NumCPU()
 	initSolvers(workers/2+2, filepath.Join(*verifDir, ".cache"))
@@ -99,6 +101,11 @@ func cmdCheck(args []string) int {
 		return fail("no such property in properties.map")
 	}
 	res := runCheck(prog, cs, pd, *tier, workers)
+	if *record {
+		if err := recordPlan(res.Obligations); err != nil {
+			fmt.Fprintln(os.Stderr, "proof plan not recorded:", err)
+		}
+	}
 	res.Broken = append(res.Broken, vacuityQueries(res)...)
 	lemmaObls := runLemmas(prog, cs, pd, *tier)
 	res.Obligations = append(res.Obligations, lemmaObls...)
